@@ -175,7 +175,17 @@ func (s *SSD) OnSurvey(surveyType string, payload []byte) ([]byte, bool) {
 
 // Lookup performs a against the storage.
 func (s *SSD) lookup(q lookupQuery) (matches message.Frame) {
-	matches = make(message.Frame, 0, q.Limit)
+	if q.Limit <= 0 {
+		return message.Frame{}
+	}
+
+	// The limit comes from the client, do not size the buffer with it blindly
+	capacity := q.Limit
+	if capacity > 1024 {
+		capacity = 1024
+	}
+
+	matches = make(message.Frame, 0, capacity)
 	if err := s.db.View(func(tx *badger.Txn) error {
 		it := tx.NewIterator(badger.IteratorOptions{
 			PrefetchValues: false,
